@@ -39,6 +39,16 @@ func (e *Engine) lookupIntrinsic(fn *ssa.Function, key string) (intrFn, bool) {
 		if in, ok := e.intrinsics[key[i+1:]]; ok {
 			return in, true
 		}
+		// methods: (<module>/vrt.JSON).Kind -> (vrt.JSON).Kind
+		if j := strings.IndexAny(key, "(*"); j == 0 {
+			k := 0
+			for k < len(key) && (key[k] == '(' || key[k] == '*') {
+				k++
+			}
+			if in, ok := e.intrinsics[key[:k]+key[i+1:]]; ok {
+				return in, true
+			}
+		}
 	}
 	if fn.Pkg != nil && fn.Pkg.Pkg.Name() == "vrt" {
 		if in, ok := e.intrinsics["vrt."+fn.Name()]; ok {
